@@ -80,12 +80,20 @@ func init() {
 			mk := func(arity, maxlen, nops, typ int) JobDef {
 				return JobDef{Name: fmt.Sprintf("HarnessC09Seq-a%d-l%d-n%d-t%d", arity, maxlen, nops, typ), Pkg: metricsPkg, Dir: "internal/metrics",
 					Harness: []string{"metrics/c08.go", "metrics/c09.go"}, Entry: "HarnessC09Seq", Params: p("arity", arity, "maxlen", maxlen, "nops", nops, "type", typ),
-					Bound: fmt.Sprintf("every sequence of %d operations from {get-or-create, delete, expire, wrong-length calls, value update, find} on an empty metric of arity %d, value type %d; every label 0..%d arbitrary bytes; expiry any int64", nops, arity, typ, maxlen)}
+					Bound: fmt.Sprintf("every sequence of %d operations from {get-or-create, delete, expire, wrong-length calls, value update, find, enumerate} on an empty metric of arity %d, value type %d; every label 0..%d arbitrary bytes; expiry any int64", nops, arity, typ, maxlen)}
 			}
 			if tier == "thorough" {
-				return []JobDef{mk(1, 1, 4, 0), mk(2, 1, 3, 0), mk(1, 2, 3, 0), mk(0, 1, 4, 0), mk(1, 1, 3, 1), mk(1, 1, 3, 2), mk(1, 1, 3, 3), mk(2, 2, 2, 0)}
+				pre := mk(1, 1, 3, 0)
+				pre.Name += "-preemit"
+				pre.Params["preemit"] = 1
+				pre.Bound = "a metric holding one tuple that has been enumerated once, then " + pre.Bound
+				return []JobDef{pre, mk(1, 1, 4, 0), mk(2, 1, 3, 0), mk(1, 2, 3, 0), mk(0, 1, 4, 0), mk(1, 1, 3, 1), mk(1, 1, 3, 2), mk(1, 1, 3, 3), mk(2, 2, 2, 0)}
 			}
-			return []JobDef{mk(1, 1, 3, 0), mk(2, 1, 2, 0), mk(0, 1, 3, 0), mk(1, 1, 2, 3), mk(1, 1, 2, 2)}
+			pre := mk(1, 1, 2, 0)
+			pre.Name += "-preemit"
+			pre.Params["preemit"] = 1
+			pre.Bound = "a metric holding one tuple that has been enumerated once, then " + pre.Bound
+			return []JobDef{mk(1, 1, 3, 0), pre, mk(2, 1, 2, 0), mk(0, 1, 3, 0), mk(1, 1, 2, 3), mk(1, 1, 2, 2)}
 		},
 		Assumptions: append([]string{
 			"the oracle is an insertion-ordered association list written in the harness and executed by the same engine on the same symbols",
@@ -214,7 +222,9 @@ func init() {
 		Jobs: func(tier string) []JobDef {
 			j := exporterJob("HarnessC22", 1, 0, "one metric of each kind/type (counter int/float, gauge float, timer, histogram with two observations, text) with two label sets whose values, timestamps, observations and (single lower-case letter) label values are symbolic; formatters graphite, statsd, collectd, varz")
 			j.Harness = []string{"exporter/c12.go", "exporter/c22.go"}
-			return []JobDef{j}
+			j2 := exporterJob("HarnessC22Reexport", 1, 0, "counter/gauge/timer metric with label sets a,b (symbolic values and timestamps) exported once, then a removed and c added, exported again with each of the four formatters")
+			j2.Harness = j.Harness
+			return []JobDef{j, j2}
 		},
 		Assumptions: append([]string{
 			"fmt.Sprintf/Fprintf are engine models: %s/%v/%d/%g of symbolic numbers become opaque formatted pieces that are equal iff their arguments are (injectivity of strconv's shortest formatting; NaNs equal); strings.ReplaceAll/Join and sort.Strings are engine models",
